@@ -129,6 +129,21 @@ func (w *World) settle(p *pfcpx.Peer, got bool, extraQuiet time.Duration) {
 func (w *World) collectMarkers(programmedAt time.Time) []map[string]interface{} {
 	out := []map[string]interface{}{}
 
+	if w.P4 != nil {
+		// UP4: end markers leave as packet-outs on the P4Runtime stream; "programmed" = the last Write RPC was answered
+		st := w.P4.Snapshot()
+
+		for i := w.p4PktSeen; i < len(st.PktOut); i++ {
+			m := markerJSON(st.PktOut[i])
+			m["afterProg"] = !st.PktOutAt[i].Before(st.WriteEnd)
+			out = append(out, m)
+		}
+
+		w.p4PktSeen = len(st.PktOut)
+
+		return out
+	}
+
 	for {
 		select {
 		case mk := <-w.markers:
@@ -569,7 +584,7 @@ func (w *World) Report(peer string, upSeid uint64, cause uint8) []pfcpx.Dgram {
 	p := w.Peer(peer)
 	p.Drain()
 
-	if w.NotifyC == nil {
+	if w.P4 == nil && w.NotifyC == nil {
 		w.LastErr = "notify socket not connected"
 		return nil
 	}
@@ -580,7 +595,19 @@ func (w *World) Report(peer string, upSeid uint64, cause uint8) []pfcpx.Dgram {
 	}
 
 	tms := int(time.Since(w.t0) / time.Millisecond)
-	_, _ = w.NotifyC.Write(b)
+
+	if w.P4 != nil {
+		// UP4: the switch reports the UE address of a buffered downlink packet in a digest; an unknown session is
+		// reported as an address no session has
+		ue, ok := w.UeBySeid[upSeid]
+		if !ok {
+			ue = 0x0AFE0000 | uint32(upSeid&0xFFFF)
+		}
+
+		w.P4.SendDigest(ue)
+	} else {
+		_, _ = w.NotifyC.Write(b)
+	}
 	got := p.WaitN(1, 150*time.Millisecond)
 	ds := p.Drain()
 	srr := []map[string]interface{}{}
@@ -607,10 +634,7 @@ func (w *World) Report(peer string, upSeid uint64, cause uint8) []pfcpx.Dgram {
 	}
 
 	ev := map[string]interface{}{"ev": "report", "peer": p.Name, "u": w.UpTok.Reg(upSeid), "srr": srr, "cause": int(cause), "t": tms}
-	t := w.Bess.Snapshot()
-	ev["dp"] = w.dpJSON()
-	ev["cmds"] = t.Cmds
-	ev["errs"] = t.Errs
+	w.dpObs(ev)
 
 	if w.SnapEvery {
 		ev["snap"] = w.snapJSON()
